@@ -186,7 +186,7 @@ func c18TreesAlive(c *core.Ctx, idx int) {
 func init() {
 	core.Register(&core.Check{
 		ID:   "C18",
-		Rule: "cases = {token,position} pool x {single, two interleaved pools of one size, 2..5 interleaved pools of different sizes} x block size (1..64 and boundary sizes; thorough 1..300 and up to 4097); each case is a history of 4*size+3 Get calls with all prefixes checked, plus long histories (200k / 1.5M requests for sizes 1,2,3,7,64,1000,1024,1025 and 4*size+3 requests for sizes 8192..100000) checked at every doubling and at the end; plus trees-alive cases: 2..5 Parse calls (sequential or on goroutines) whose trees are all kept — token and position objects pairwise distinct across the trees, every tree unchanged after the last parse; non-trivial = history crossed at least one block boundary; distinct by (mode, size, requests)",
+		Rule: "cases = {token,position} pool x {single, two interleaved pools of one size, 2..5 interleaved pools of different sizes} x block size (1..64 and boundary sizes; thorough 1..300 and up to 4097); each case is a history of 4*size+3 Get calls with all prefixes checked (objects written at once, or only after 1, 2, size or all further requests), plus long histories (200k / 1.5M requests for sizes 1,2,3,7,64,1000,1024,1025 and 4*size+3 requests for sizes 8192..100000) checked at every doubling and at the end; plus trees-alive cases: 2..5 Parse calls (sequential or on goroutines) whose trees are all kept — token and position objects pairwise distinct across the trees, every tree unchanged after the last parse; non-trivial = history crossed at least one block boundary; distinct by (mode, size, requests)",
 		Assumptions: []string{
 			"the public Pool API (NewPool, Get) is the only way the library obtains tokens and positions",
 			"block size 0 (Get returns nil) is outside the property's quantifier (positive sizes)",
@@ -242,7 +242,18 @@ func init() {
 			total := requests * npools
 			seen := map[interface{}]int{}
 			var objs []c18obj
+			// delay: 0 = immediate; otherwise the number of objects that stay unwritten behind the newest request
+			delay := []int{0, 0, 1, 2, size, 1 << 30}[rnd.Intn(6)]
+			if long && delay > 2 {
+				delay = 2
+			}
+			w.Cfg["fill_delay"] = fmt.Sprint(delay)
+			var pending []c18obj
 			verifyAll := func(at int) bool {
+				for _, p := range pending {
+					c18write(p)
+				}
+				pending = pending[:0]
 				for _, o := range objs {
 					if !c18holds(o) {
 						c.Violation("pool|"+mode+"|clobbered", fmt.Sprintf("after %d requests (block size %d) object #%d no longer holds the value written through its own pointer", at, size, o.id), w)
@@ -286,8 +297,18 @@ func init() {
 						return
 					}
 					seen[key] = i + 1
-					c18write(o)
+					// fill policy: write at once, or only after `delay` further requests (a caller may reserve objects
+					// first and fill them later; until then they hold the zero value)
 					objs = append(objs, o)
+					if delay == 0 {
+						c18write(o)
+					} else {
+						pending = append(pending, o)
+						for len(pending) > delay {
+							c18write(pending[0])
+							pending = pending[1:]
+						}
+					}
 					c.Add("gets", 1)
 					if (!long && (per[k]%psize[k] == 0 || per[k]%psize[k] == 1 || i%64 == 0)) || (long && i&(i-1) == 0) {
 						c.Add("full_content_checks", 1)
